@@ -270,10 +270,20 @@ def edit_tg_cases(draw):
 # ---------------------------------------------------------------- generators
 
 
+# one-decimal intervals for which start + (end - start) is not end (a shift done "by duration" moves their end by an ulp)
+_ROUNDING_SENSITIVE = [(s / 10, e / 10) for s in range(0, 40) for e in range(s + 1, 60) if s / 10 + (e / 10 - s / 10) != e / 10]
+
+
 @st.composite
 def edit_cases(draw):
     style = draw(gen.STYLES_ARITH)
     spec = draw(st.one_of(gen.interval_tier(style=style), gen.point_tier(style=style)))
+    if style != "grid" and draw(st.integers(0, 5)) == 0:
+        # a tier annotated right up to its end, shifted by nothing (or by a little): nothing leaves, nothing is reported
+        s0, e0 = draw(st.sampled_from(_ROUNDING_SENSITIVE))
+        ents = ([[0.0, s0, "a"]] if s0 > 0 and draw(st.booleans()) else []) + [[s0, e0, "b"]]
+        spec = {"type": "interval", "name": "t", "entries": ents, "minT": 0.0, "maxT": e0, "style": style}
+        return {"tier": spec, "offset": draw(st.sampled_from([0.0, 0.0, 0])), "mode": draw(st.sampled_from(["error", "warning", "silence"]))}
     ts = sorted({t for e in spec["entries"] for t in e[:-1]})
     mids = [(x + y) / 2 for x, y in zip(ts, ts[1:])]
     cands = [0.0] + [-t for t in ts] + [-m for m in mids] + [-(spec["maxT"] + 1.0), 0.5, 1.0]
@@ -319,6 +329,8 @@ def append_tg_cases(draw):
         else:
             t["name"] = f"b{i}"
         used.add(t["name"])
+    if draw(st.integers(0, 9)) == 0:
+        B = dict(B, tiers=[])  # nothing annotated in B, but B has a length
     return {"A": A, "B": B, "only": draw(st.booleans())}
 
 
